@@ -921,6 +921,136 @@ def _innermost_loop(node):
     return None
 
 
+def rule_r8(chk, prog):
+    chk.rule('C03.R8', 'quote escaping is applied once: text that is '
+             'escaped (" -> "") on its way into a string literal was '
+             'unescaped ("" -> ") when it was taken out of one; otherwise '
+             'every quote is doubled again and the "shorter" literal is as '
+             'long as, or longer than, the one it replaces')
+    n = 0
+    for m in prog.pkg_modules():
+        if not m.name.startswith('mutators_'):
+            continue
+        for q, f in m.funcs.items():
+            for c in calls_in(f):
+                if not (isinstance(c.func, ast.Attribute)
+                        and c.func.attr == 'replace' and len(c.args) == 2
+                        and is_const(c.args[0], '"')
+                        and is_const(c.args[1], '""')):
+                    continue
+                n += 1
+                verdict, why = _unescaped_source(m, f, c.func.value, 0, set())
+                chk.check('C03.R8', f'{m.name}.{q}', c, verdict != 'escaped',
+                          'the text that is escaped here still is the '
+                          f'escaped body of a string literal ({why}): its '
+                          'doubled quotes are doubled again, so a proposal '
+                          'that should shorten the literal reproduces or '
+                          'lengthens it - an accepted no-op is re-tested '
+                          'forever', loc=m.loc(c), nontrivial=True,
+                          argument=f'{verdict}: {why}')
+    chk.floor('C03.R8', 'escaping sites in the mutators', n, 1)
+
+
+def _unescaped_source(m, f, e, depth, seen):
+    """'unescaped' | 'escaped' | 'neutral' (no quotes possible / unknown)
+    for a text expression, following locals, slices, concatenation and - for
+    parameters of a method - the arguments at its call sites in the class."""
+    if depth > 8:
+        return 'neutral', 'depth'
+    if isinstance(e, ast.Call) and isinstance(e.func, ast.Attribute) and \
+            e.func.attr == 'replace' and len(e.args) == 2 and is_const(
+                e.args[0], '""') and is_const(e.args[1], '"'):
+        return 'unescaped', unparse(e)[:40]
+    if isinstance(e, ast.Constant):
+        return 'neutral', 'constant'
+    if isinstance(e, ast.Subscript) and isinstance(e.slice, ast.Slice):
+        base = e.value
+        if isinstance(base, ast.Attribute) and base.attr == 'data':
+            base = base.value
+        if isinstance(base, ast.Name) and base.id in params_of(f) and \
+                base.id in ('node', 'n', 'term'):
+            return 'escaped', f'{unparse(e)} is the body of the literal'
+        return _unescaped_source(m, f, e.value, depth + 1, seen)
+    if isinstance(e, ast.BinOp) and isinstance(e.op, ast.Add):
+        a = _unescaped_source(m, f, e.left, depth + 1, seen)
+        b = _unescaped_source(m, f, e.right, depth + 1, seen)
+        for x in (a, b):
+            if x[0] == 'escaped':
+                return x
+        for x in (a, b):
+            if x[0] == 'unescaped':
+                return x
+        return a
+    if isinstance(e, ast.JoinedStr):
+        res = ('neutral', 'f-string')
+        for v in e.values:
+            if isinstance(v, ast.FormattedValue):
+                r = _unescaped_source(m, f, v.value, depth + 1, seen)
+                if r[0] == 'escaped':
+                    return r
+                if r[0] == 'unescaped':
+                    res = r
+        return res
+    if isinstance(e, ast.Name):
+        key = (id(f), e.id)
+        if key in seen:
+            return 'neutral', 'cycle'
+        seen = seen | {key}
+        if e.id in params_of(f):
+            # arguments at the call sites of this method within its class
+            res = ('neutral', f'parameter {e.id}')
+            idx = params_of(f).index(e.id)
+            cls = getattr(f, '_class', None)
+            off = 1 if cls is not None else 0
+            for q2, f2 in m.funcs.items():
+                for c2 in calls_in(f2):
+                    if isinstance(c2.func, ast.Attribute) and \
+                            f._qualname.endswith('.' + c2.func.attr) or (
+                                isinstance(c2.func, ast.Name)
+                                and c2.func.id == f.name):
+                        if idx - off < len(c2.args) and idx - off >= 0:
+                            r = _unescaped_source(m, f2, c2.args[idx - off],
+                                                  depth + 1, seen)
+                            if r[0] == 'escaped':
+                                return r
+                            if r[0] == 'unescaped':
+                                res = r
+            return res
+        res = ('neutral', f'no definition of {e.id}')
+        for st in ast.walk(f):
+            if isinstance(st, ast.Assign) and any(
+                    isinstance(t, ast.Name) and t.id == e.id
+                    for t in st.targets):
+                r = _unescaped_source(m, f, st.value, depth + 1, seen)
+                if r[0] == 'escaped':
+                    return r
+                if r[0] == 'unescaped':
+                    res = r
+        return res
+    if isinstance(e, ast.Call) and isinstance(e.func, ast.Attribute):
+        # other string methods keep the status of their receiver
+        return _unescaped_source(m, f, e.func.value, depth + 1, seen)
+    return 'neutral', unparse(e)[:30]
+
+
+def _shared_c11_identity(chk, prog, tier):
+    """Cycle guards compare identities of sub-nodes with the result of a
+    substitution (InlineDefinedFuns: "do not inline a function into its own
+    body"): substitute must keep the identity of subtrees in which nothing
+    was replaced (shared with C11.R3/R4)."""
+    sub = Check('C11', 'other', tier, [], [])
+    paths = c11.substitute_taint(sub, prog, 'C11.R1')
+    sub.guard(c11.rule_r34, sub, prog, paths)
+    sub.instances = [r for r in sub.instances if r['rule'] in ('C11.R3',
+                                                              'C11.R4')]
+    sub.findings = [f_ for f_ in sub.findings if f_.rule in ('C11.R3',
+                                                             'C11.R4')]
+    chk.adopt('C03.R7', 'substitution keeps the identity of untouched '
+              'subtrees and emits every element exactly once (shared with '
+              'C11.R3/R4): identity-based cycle guards (self-inlining) stay '
+              'effective', sub)
+
+
 def run(tier):
     prog = Program()
     chk = Check(
@@ -949,10 +1079,12 @@ def run(tier):
               'with C11.R6): iterated one-formal-at-a-time substitution '
               're-scans inserted arguments, the instantiated body can double '
               'per parameter', sub11)
+    chk.guard(_shared_c11_identity, chk, prog, tier)
     chk.guard(rule_r2, chk, prog)
     chk.guard(rule_r3, chk, prog)
     chk.guard(rule_r4, chk, prog)
     chk.guard(rule_r5, chk, prog)
+    chk.guard(rule_r8, chk, prog)
     extra = None
     if tier == 'thorough':
         from .. import selftest
